@@ -201,3 +201,88 @@ Example T1_strings_matcher_rule_premise_example :
   starts_pct (su (bs 3 0x256125)) = starts_pct (bs 3 0x256125) /\
   ends_pct (su (bs 3 0x256125)) = ends_pct (bs 3 0x256125).
 Proof. cbv zeta. split; [intros [|? ?] s1 s2 H; [reflexivity|discriminate]|split; reflexivity]. Qed.
+
+(* ------------------------------------------------------------------ match.go: the Matches methods *)
+(* The nine methods func (m *XMatcher) Matches(s string) bool, translated (a pointer receiver is the fields of its
+   struct, answered back after the result; ToUpper(&m.buf, s) reads and rebinds the buffer field;
+   m.r.MatchString(s) is the arbitrary re_ms), and the interface call m.Matches(s) as the generated dispatch
+   gst_Matches over the constructors of gst_Matcher.  For every matcher, every cell, every rune map and every
+   state of the reused buffer: the same answer AND the same matcher left behind as the model's matches (the one
+   C18_matcher_rule speaks about and the strings engine executes).  Premise, for a RegexpMatcher only: the
+   expression is one the regexp oracle answers on (a compiled expression always answers). *)
+Theorem T1_strings_Matches (upper : Z -> Z) (up : N -> Z) (Hagree : forall c, upper (Z.of_N c) = up c)
+  (re_ms : bytes -> bytes -> bool) (re_match : bytes -> bytes -> option bool)
+  (fuel : nat) (m : gst_Matcher) (s : bytes) :
+  3 <= fuel ->
+  (forall r, m = gst_RegexpMatcher r -> re_match r s = Some (re_ms r s)) ->
+  ofmap answer_of (gst_Matches upper re_ms fuel m s) = matches up re_match (matcher_of m) s.
+Proof. exact (gst_Matches_eq upper up Hagree re_ms re_match fuel m s). Qed.
+Print Assumptions T1_strings_Matches.
+(* a CI prefix matcher "ST" with a 2-byte buffer on the cell "stra" (a-z -> A-Z): true, and the matcher keeps the
+   8-byte buffer ToUpper allocated; a regexp matcher satisfies the premise when the oracle answers *)
+Example T1_strings_Matches_example :
+  gst_Matches (fun z => T1_strings_up_example (Z.to_N z)) (fun _ _ => true) 3
+              (gst_CIPrefixMatcher (bs 2 0x5354) [0%N; 0%N]) (bs 4 0x73747261)
+  = Ok (true, gst_CIPrefixMatcher (bs 2 0x5354) (bs 4 0x53545241 ++ repeat 0%N 4)) /\
+  (forall r, gst_RegexpMatcher (bs 1 0x61) = gst_RegexpMatcher r ->
+     (fun (_ _ : bytes) => Some true) r (bs 1 0x62) = Some ((fun (_ _ : bytes) => true) r (bs 1 0x62))).
+Proof. split; [vm_compute; reflexivity|intros r _; reflexivity]. Qed.
+
+(* ------------------------------------------------------------------ scolumn/filters.go: regexFilter (like / ilike) *)
+(* The string column's like / ilike, translated from internal/scolumn/filters.go: NewMatcher, its error return,
+   and the loop `for i, x := range bIndex { if !x { s, isNull := s.stringAt(index[i]); if !isNull { bIndex[i] =
+   matcher.Matches(s) } } }` (index.Int as the list of row ids, the column as its cells with None = null — the body
+   of stringAt is text-matched —, bIndex written in place and answered, the matcher threaded through the calls:
+   a CI matcher keeps its buffer from cell to cell).  It IS the model's regex_filter, the function
+   C18_string_filter speaks about: for every index, column, pattern, case mode, bIndex, rune map, strings.ToUpper
+   and regexp oracle.  Premises on the oracles only: the generated side's regexp.Compile verdict / MatchString
+   answer are the model's option-valued re_match read both ways (compiled <-> answers on the empty string; a
+   compiled expression answers on every subject). *)
+Theorem T1_strings_regexFilter (upper : Z -> Z) (up : N -> Z) (Hagree : forall c, upper (Z.of_N c) = up c)
+  (su : bytes -> bytes) (re_compile : bytes -> bool) (re_ms : bytes -> bytes -> bool)
+  (re_match : bytes -> bytes -> option bool)
+  (Hre : forall x, re_compile x = match re_match x [] with Some _ => true | None => false end)
+  (Hms : forall pat s, re_match pat [] <> None -> re_match pat s = Some (re_ms pat s))
+  (fuel : nat) (index : list nat) (col : list (option bytes)) (p : bytes) (bi : list bool) (cs : bool) :
+  4 <= fuel ->
+  gst_scolumn_regexFilter upper su re_compile re_ms fuel index col p bi cs
+  = regex_filter up su re_match index col p bi cs.
+Proof. exact (gst_regexFilter_eq upper up Hagree su re_compile re_ms re_match Hre Hms fuel index col p bi cs). Qed.
+Print Assumptions T1_strings_regexFilter.
+(* ilike "b%" over rows 2, 0, 1 of the column ["bx"; null; "Ba"], the first position already decided: the CI prefix
+   matcher "B" answers true for "Ba" (row 1 is null and stays false); oracles satisfying the premises *)
+Example T1_strings_regexFilter_example :
+  let su := fun p : bytes => map (fun b => if (0x61 <=? b) && (b <=? 0x7a) then b - 32 else b)%N p in
+  gst_scolumn_regexFilter (fun z => T1_strings_up_example (Z.to_N z)) su (fun _ => true) (fun _ _ => true) 4
+    [2; 0; 1]%nat [Some (bs 2 0x6278); None; Some (bs 2 0x4261)] (bs 2 0x6225) [true; false; false] false
+  = Ok [true; true; false] /\
+  (forall x : bytes, (fun _ : bytes => true) x
+     = match (fun _ _ : bytes => Some true) x [] with Some _ => true | None => false end) /\
+  (forall pat s : bytes, (fun _ _ : bytes => Some true) pat [] <> None ->
+     (fun _ _ : bytes => Some true) pat s = Some ((fun _ _ : bytes => true) pat s)).
+Proof. split; [vm_compute; reflexivity|split; intros; reflexivity]. Qed.
+
+(* ------------------------------------------------------------------ ecolumn/filters.go: filterLike (like / ilike) *)
+(* The enum column's like / ilike bitset builder, translated from internal/ecolumn/filters.go: NewMatcher, its error
+   return, bset := &bitset{}, and `for i, v := range values { if matcher.Matches(v) { bset.set(enumVal(i)) } }` — the
+   matcher applied once per enum VALUE (the buffer of a CI matcher carried from value to value), enumVal(i) the
+   uint8 conversion i mod 256, bset.set the function translated in GenFuncs.v (T1_bitset_set).  It IS the model's
+   filter_like (words as Z), the function C18_enum_filter / C18_string_enum_agree speak about; premises on the
+   regexp oracles as for T1_strings_regexFilter.  The row loop filterWithBitset that consumes the bitset is the
+   generated kernel k_e_filterWithBitset (GenKernels.v, C02 row theorems). *)
+Theorem T1_strings_filterLike (upper : Z -> Z) (up : N -> Z) (Hagree : forall c, upper (Z.of_N c) = up c)
+  (su : bytes -> bytes) (re_compile : bytes -> bool) (re_ms : bytes -> bytes -> bool)
+  (re_match : bytes -> bytes -> option bool)
+  (Hre : forall x, re_compile x = match re_match x [] with Some _ => true | None => false end)
+  (Hms : forall pat s, re_match pat [] <> None -> re_match pat s = Some (re_ms pat s))
+  (fuel : nat) (p : bytes) (values : list bytes) (cs : bool) :
+  4 <= fuel ->
+  gst_ecolumn_filterLike upper su re_compile re_ms fuel p values cs
+  = ofmap (map Z.of_N) (filter_like up su re_match p values cs).
+Proof. exact (gst_filterLike_eq upper up Hagree su re_compile re_ms re_match Hre Hms fuel p values cs). Qed.
+Print Assumptions T1_strings_filterLike.
+(* like "%a" over the values ["ba"; "ab"; "a"]: bits 0 and 2 *)
+Example T1_strings_filterLike_example :
+  gst_ecolumn_filterLike (fun z => z) (fun p => p) (fun _ => true) (fun _ _ => true) 4
+    (bs 2 0x2561) [bs 2 0x6261; bs 2 0x6162; bs 1 0x61] true = Ok [5; 0; 0; 0]%Z.
+Proof. vm_compute. reflexivity. Qed.
